@@ -1,7 +1,7 @@
 (* Property C01: an operator acts on arrays exactly as the matrix it represents.
    Only statements closed by [exact]; the lemmas live in OpProofs.v / ToDense.v / Dtype.v. *)
-From Coq Require Import List Arith Bool.
-From Core Require Import Base Kron Op OpProofs.
+From Coq Require Import List Arith Bool ZArith.
+From Core Require Import Base Kron Op OpProofs ToDense ZIInst.
 Import ListNotations.
 
 (* forward product = represented matrix times operand, with the right shape, for every operator tree,
@@ -15,3 +15,18 @@ Theorem C01_matmat_shape : forall (R : Type) (RR : Ring R) (CR : CRing R) (e : o
   wf e = true -> nr X = snd (shape e) -> nr (matmat e X) = fst (shape e) /\ nc (matmat e X) = nc X.
 Proof. intros R RR CR e X Hwf HX. destruct (proj1 (mm_den e Hwf) X HX) as (H1 & H2 & _). exact (Logic.conj H1 H2). Qed.
 Print Assumptions C01_matmat_shape.
+
+(* densification: the kind-specific paths (Dense, Diagonal, Kronecker = reduce(np.kron), KronSum = reduce(kronsum),
+   BlockDiag = block_diag) and both generic paths (identity on the right; on the left, through the backward product,
+   when 8*rows < cols) return the represented matrix *)
+Theorem C01_to_dense_den : forall (R : Type) (RR : Ring R) (CR : CRing R) (e : op (R:=R)),
+  wf e = true -> aeq (to_dense e) (mkarr (fst (shape e)) (snd (shape e)) (den e)).
+Proof. intros R RR CR e. exact (@to_dense_den R RR CR e). Qed.
+Print Assumptions C01_to_dense_den.
+
+(* non-vacuity: a nested tree with three Kronecker factors, a block multiplicity and a slice is well-formed *)
+Example C01_example :
+  let D := Dense (of_list_mn 2 2 [[(1,0)%Z; (2,1)%Z]; [(0,-1)%Z; (3,0)%Z]]) in
+  let e : op (R:=zi) := Sum [Kron [D; Ident 2; Diag 1 (fun _ => (2,0)%Z)]; BDiag [(Sliced (Kron [D; D]) [0;1] [2;3], 2)]] in
+  wf e = true /\ shape e = (4, 4).
+Proof. cbv zeta. split; reflexivity. Qed.
